@@ -75,7 +75,7 @@ func inQuickPair(a, b drForm) bool {
 	}
 	if sameNS(a, b) {
 		// [ns3] (index 6): a list that names neither proxy namespace nor, usually, the rules' own
-		return ia < 5 && (ib < 5 || ib == 6)
+		return ia < 5 && ib <= 6
 	}
 	return ia < drExportToQuick && ib < 3
 }
